@@ -36,7 +36,9 @@ let () =
          | ["fold"; op; lb; ls; rb; rs; a; b; lu; ru] ->
              show_f (fold_bin (binop_of op) (ity lb ls) (ity rb rs) (z_of_hex a) (z_of_hex b) (lu = "1") (ru = "1"))
          | ["foldun"; op; b; s; a] -> show_f (fold_un (unop_of op) (ity b s) (z_of_hex a))
-         | ["baked"; b; s; v] -> "V " ^ hex_of_z (baked (ity b s) (z_of_hex v))
+         | ["baked"; b; s; v] ->
+             let t = ity b s in let r = baked t (z_of_hex v) in
+             "V " ^ hex_of_z r ^ " " ^ show_ity (lit_ctype t r)
          | ["conv"; b; s; v] -> if conv_accepts (ity b s) (z_of_hex v) then "OK" else "E"
          | ["rt"; op; lb; ls; rb; rs; a; b] ->
              show_r (rt_bin (binop_of op) (ity lb ls) (ity rb rs) (z_of_hex a) (z_of_hex b))
